@@ -72,6 +72,20 @@ def run(tier):
     rep.add_mc(r, "MCCrdtAsBuilt (expected violation: Commutative)")
     r = vlib.must_violate(vlib.tlc("MCCrdt", "MCCrdtMismatch", wd, workers=2), "Associative", "type-mismatch rule")
     rep.add_mc(r, "MCCrdtMismatch (expected violation: Associative)")
+    # thorough-tier extra (no verdict depends on it): the max-lattice fragments - stamps, grow-only counters, LWW registers -
+    # proved unboundedly with TLAPS (spec/proofs/CrdtLaws.tla)
+    if thorough:
+        import shutil as _sh, subprocess as _sp, re as _re
+        pdir = os.path.join(wd, "proofs")
+        os.makedirs(pdir, exist_ok=True)
+        _sh.copy(os.path.join(vlib.SPEC, "proofs", "CrdtLaws.tla"), pdir)
+        try:
+            p = _sp.run(["timeout", "900", "tlapm", "--threads", "8", "CrdtLaws.tla"], cwd=pdir, stdout=_sp.PIPE, stderr=_sp.STDOUT, text=True)
+            m = _re.search(r"All (\d+) obligations? proved", p.stdout)
+            rep.notes["tlaps"] = {"module": "spec/proofs/CrdtLaws.tla", "all_proved": bool(m), "obligations": int(m.group(1)) if m else None,
+                                  "tail": "" if m else p.stdout[-400:]}
+        except Exception as e:          # tool not usable: recorded, nothing else
+            rep.notes["tlaps"] = {"module": "spec/proofs/CrdtLaws.tla", "all_proved": False, "error": str(e)}
     # 2./3. export + replay
     total_scn = 0
     for cfg in ("SimCrdt", "SimCrdtKinds"):
